@@ -241,6 +241,9 @@ func main() {
 	flag.Parse()
 
 	debug.SetGCPercent(200)
+	if *tier == "thorough" {
+		bigBias = 1
+	}
 	initTypeMasks()
 	installHook()
 	racePath := os.Getenv("SIM_RACE_LOG")
